@@ -1,6 +1,7 @@
 package govc
 
 import (
+	"sort"
 	"fmt"
 	"go/types"
 	"regexp"
@@ -157,7 +158,12 @@ func (fc *FnCtx) noteCalled(c *ssa.CallCommon, st *State) {
 		return false
 	}
 	// calledAfter("X","Y") first: it looks at the flag of Y before this call is recorded
+	var pairs [][2]string
 	for p := range fc.calledPairs {
+		pairs = append(pairs, p)
+	}
+	sort.Slice(pairs, func(i, j int) bool { return pairs[i][0]+"|"+pairs[i][1] < pairs[j][0]+"|"+pairs[j][1] })
+	for _, p := range pairs {
 		x, y := p[0], p[1]
 		if match(x) {
 			key := "calledafter:" + x + "|" + y
@@ -165,7 +171,7 @@ func (fc *FnCtx) noteCalled(c *ssa.CallCommon, st *State) {
 			fc.heapSet(st, key, fc.tb.Or(prev, fc.heapGet(st, "called:"+y, "Bool")))
 		}
 	}
-	for n := range fc.calledNames {
+	for _, n := range sortedStrs(fc.calledNames) {
 		if match(n) {
 			fc.heapSet(st, "called:"+n, fc.tb.True())
 		}
